@@ -90,6 +90,9 @@ def decide(prop, tier, res, t0, extra=None):
             rule_inst.append(dict(i, rule=rname))
         for v in viol:
             rule_viol.append(dict(v, rule=rname))
+        for u in r.get("undecided", []):
+            if prop in u.get("props", [prop]):
+                errors.append(f"not decided: rule {rname}: {u['msg']}")
     floor_msgs = floors(prop, res, sel, obligations)
     errors.extend(floor_msgs)
     if extra:
